@@ -179,6 +179,11 @@ func (p *C12) Gen(seed uint64, i int, tier string) *scen.Scenario {
 		for k := r.Intn(4); k > 0; k-- {
 			sc.Faults = append(sc.Faults, scen.Fault{W: 4, Attempt: r.Intn(6), Kind: "stall", N: r.Range(1, 4)})
 		}
+		if r.Chance(1, 3) {
+			// the other goroutine's destination never comes back: its call stays in flight for good, the
+			// terminating call must still do what it has to do
+			sc.Faults = append(sc.Faults, scen.Fault{W: 4, Attempt: r.Intn(3), Kind: "hang"})
+		}
 		return sc
 	}
 	sc.Setup = append(sc.Setup, cell)
